@@ -142,6 +142,38 @@ Fixpoint addr_insert (a : bytes) (l : list bytes) : list bytes :=
 
 Definition addr_sort (l : list bytes) : list bytes := fold_right addr_insert [] l.
 
+(** ** Loop 5 — a library loop reached from teleport: cosmos-sdk v0.45.2 types.TypedEventToEvent
+
+    Every event of x/xibc and x/aggregate is emitted through [EventManager.EmitTypedEvent], which calls
+    [for k, v := range attrMap { attrs = append(attrs, abci.EventAttribute{Key: []byte(k), Value: v}) }]
+    and nothing else: the attribute list of the event IS the enumeration order.  (Outside /repo, hence not in the
+    inventory of [range] statements; the CALLS are inventoried as hazard kind "sdk-typed-event".) *)
+Definition typed_event_attrs {K V : Type} (l : list (K * V)) : list (K * V) :=
+  fold_left (fun acc e => acc ++ [e]) l [].
+
+(** the repair ([types.EmitTypedEvent] of /var/tmp/fixes/C14): the list is then sorted by key *)
+Definition attr_le {V : Type} (a b : bytes * V) : Prop := addr_le (fst a) (fst b).
+
+Definition attr_sort_spec {V : Type} (sort : list (bytes * V) -> list (bytes * V)) : Prop :=
+  forall l, Permutation.Permutation (sort l) l /\ Sorted.StronglySorted attr_le (sort l).
+
+Definition typed_event_attrs_sorted {V : Type} (sort : list (bytes * V) -> list (bytes * V)) (l : list (bytes * V)) :=
+  sort (typed_event_attrs l).
+
+(** ** An environment read: ETH seal verification
+
+    x/xibc/clients/light-clients/eth/types/header.go VerifyCascadingFields:
+    [cachedir, err := ioutil.TempDir("", ""); if err != nil { return errEthashStopped }; ...
+     if err := ethash.VerifySeal(header, false); err != nil { return ErrHeader }; return nil]
+    [tmp_ok]: does ioutil.TempDir succeed ON THIS NODE; [seal_ok]: the ethash verdict for the header (a function
+    of the header alone: hashimotoLight over cache words that depend only on the epoch). *)
+Definition verify_cascading (tmp_ok seal_ok : bool) : outcome unit :=
+  if tmp_ok then (if seal_ok then Ok tt else Err) else Err.
+
+(** the repair: in-memory cache, no directory *)
+Definition verify_cascading_in_memory (tmp_ok seal_ok : bool) : outcome unit :=
+  if seal_ok then Ok tt else Err.
+
 (** ** The table: inventory row -> transcription -> lemma
 
     [Proved name]: the statement transcribed above, permutation invariance proved as lemma [name] of
